@@ -9,6 +9,7 @@ import (
 	"go/constant"
 	"go/token"
 	"go/types"
+	"golang.org/x/tools/go/ssa"
 	"strconv"
 	"strings"
 )
@@ -24,14 +25,16 @@ func evalFail(format string, a ...interface{}) {
 }
 
 type Env struct {
-	x    *Exec
-	st   *State
-	old  *Env
-	vars map[string]Val
-	fr   *Frame    // optional: resolve locals through cells
-	pos  token.Pos // scope position for local lookup
-	pkg  *types.Package
-	spec bool // evaluating a spec function body (no heap access)
+	x      *Exec
+	st     *State
+	old    *Env
+	vars   map[string]Val
+	fr     *Frame    // optional: resolve locals through cells
+	pos    token.Pos // scope position for local lookup
+	pkg    *types.Package
+	spec   bool // evaluating a spec function body (no heap access)
+	qdepth int  // > 0 inside a quantifier body (bound variables in scope)
+	noinst bool
 }
 
 func (e *Env) with(name string, v Val) *Env {
@@ -225,7 +228,7 @@ func (e *Env) eval(ex ast.Expr) Val {
 			if e.spec {
 				evalFail("slice index in spec")
 			}
-			return e.x.loadElem(e.st, s.Arr, sApp("+", s.Off, i), s.Elem)
+			return e.x.loadElemPure(e.st, s.Arr, sApp("+", s.Off, i), s.Elem)
 		case Str:
 			i := e.evalInt(n.Index)
 			return Int{"(select " + s.Base + " (+ " + s.Off + " " + i + "))"}
@@ -457,12 +460,31 @@ func (e *Env) evalCall(n *ast.CallExpr) Val {
 		qvCounter++
 		q := fmt.Sprintf("%s!%d", id.Name, qvCounter)
 		lo, hi := e.evalInt(n.Args[1]), e.evalInt(n.Args[2])
-		body := e.with(id.Name, Int{q}).evalBool(n.Args[3])
+		qe := e.with(id.Name, Int{q})
+		qe.qdepth++
+		body := qe.evalBool(n.Args[3])
 		rng := "(and (<= " + lo + " " + q + ") (< " + q + " " + hi + "))"
 		if fname == "forall_" {
 			return Bool{"(forall ((" + q + " Int)) (=> " + rng + " " + body + "))"}
 		}
 		return Bool{"(exists ((" + q + " Int)) (and " + rng + " " + body + "))"}
+	case "atloop":
+		// atloop(n, e): value of e at the head of the current iteration of loop n
+		lit, ok := n.Args[0].(*ast.BasicLit)
+		if !ok || e.fr == nil {
+			evalFail("atloop(n, e) needs a literal loop ordinal")
+		}
+		ord, _ := strconv.Atoi(lit.Value)
+		for key, ol := range e.st.open {
+			if key.frame == e.fr.id && ol.snap != nil {
+				if lp := e.fr.loops.byHead[key.head]; lp != nil && lp.ordinal == ord {
+					ne := *e
+					ne.st = ol.snap
+					return ne.eval(n.Args[1])
+				}
+			}
+		}
+		evalFail("atloop(%d, ...): loop %d is not open here", ord, ord)
 	case "old":
 		if e.old == nil {
 			return e.eval(n.Args[0])
@@ -670,5 +692,57 @@ func (e *Env) functionalRef(fname string, argx []ast.Expr) (Val, bool) {
 	for _, a := range argx {
 		args = append(args, e.eval(a))
 	}
+	if !e.spec && e.qdepth == 0 && !e.noinst && e.x.sess != nil {
+		e.x.assumeContractInstance(e, fc, fn, args)
+	}
 	return e.x.functionalResult(e.st, fc, fn.Signature, args, ri), true
+}
+
+// assumeContractInstance: the (verified) contract of a functional function,
+// instantiated at ground arguments: requires ==> ensures[result := f(args)].
+func (x *Exec) assumeContractInstance(e *Env, fc *FuncContract, fn *ssa.Function, args []Val) {
+	key := fc.Key + "(" + strings.Join(x.functionalArgs(e.st, args), ",") + ")"
+	if x.instDone == nil {
+		x.instDone = map[string]int{}
+	}
+	if d, ok := x.instDone[key]; ok && d <= x.sess.Depth() {
+		return
+	}
+	x.instDone[key] = x.sess.Depth()
+	vars := map[string]Val{}
+	for i, p := range fn.Params {
+		if i < len(args) {
+			vars[p.Name()] = args[i]
+		}
+	}
+	res := fn.Signature.Results()
+	for i := 0; i < res.Len(); i++ {
+		v := x.functionalResult(e.st, fc, fn.Signature, args, i)
+		if n := res.At(i).Name(); n != "" && n != "_" {
+			vars[n] = v
+		}
+		vars[fmt.Sprintf("result%d", i)] = v
+		if i == 0 {
+			vars["result"] = v
+		}
+	}
+	env := &Env{x: x, st: e.st, vars: vars, pkg: x.eng.typesPkg(fc.Pkg), noinst: true}
+	env.old = env
+	var reqs, ens []string
+	for _, c := range fc.Requires {
+		if g, err := x.evalClause(env, c); err == nil {
+			reqs = append(reqs, g)
+		} else {
+			return
+		}
+	}
+	for _, c := range fc.Ensures {
+		if c.When == "panic" {
+			continue
+		}
+		if g, err := x.evalClause(env, c); err == nil {
+			ens = append(ens, g)
+		}
+	}
+	x.assume(sImp(sAnd(reqs...), sAnd(ens...)))
 }
